@@ -35,7 +35,10 @@ ERRORS = [("cannot copy directories without --recursive", "E_NEEDR"),
           ("is not a directory, but ends with a slash", "E_SRCSLASH"),
           ("when copying into a directory, all source files must have names", "E_UNNAMED"),
           ("cannot copy multiple files with the same name into the same target directory", "E_COLLIDE"),
-          ("No such file or directory", "E_MISSING")]
+          ("No such file or directory", "E_MISSING"),
+          # the gateway's own words for a file addressed with a trailing slash / for ALIAS:/ (an empty path component)
+          ("Files have no children named ''", "E_TGTSLASH"),
+          ("does not allow empty pathname components", "E_EMPTYNAME")]
 
 
 def name_of(n):
@@ -73,6 +76,13 @@ class Resp:
         v = self._r.header(name)
         return default if v is None else v
 
+    # http.client.HTTPResponse is an io.BufferedIOBase: it has seek(), and seekable() answers False
+    def seekable(self):
+        return False
+
+    def seek(self, *a):
+        raise io.UnsupportedOperation("seek")
+
 
 class Case:
     def __init__(self, base, world, case):
@@ -85,6 +95,8 @@ class Case:
         self.w = None
         self.rootcap = None
         self.caps = {}           # grid path -> cap used as a bare argument
+        self.isdir = {}
+        self.immcap = {}         # cap of an immutable file -> content id (an immutable cap determines the contents)
         self.mut = {}            # storage index -> o
         self.content = {}        # bytes -> content id
         self.newmut = 0
@@ -115,25 +127,23 @@ class Case:
         self.w.client.nodemaker.key_generator = self.w.g.keypool
         self.rootcap = self.must(self.req("POST", "/uri?t=mkdir"), "mkdir root")
         base = "/uri/" + quote(self.rootcap)
+        self.caps = {"": self.rootcap}
         for e in sorted(self.world["G0"], key=lambda e: e["p"].count("/")):
             url = base + "/" + "/".join(quote(n) for n in names_of(e["p"]))
             if e["k"] == "dir":
-                self.must(self.req("POST", url + "?t=mkdir"), "mkdir " + e["p"])
+                cap = self.must(self.req("POST", url + "?t=mkdir"), "mkdir " + e["p"])
             elif e["mu"]:
                 fmt = "MDMF" if e["o"].endswith("2") else "SDMF"
                 cap = self.must(self.req("PUT", url + "?format=" + fmt, content_bytes(e["c"])), "put mutable " + e["p"])
-                self.mut[uri_mod.from_string(cap.encode()).get_storage_index()] = e["o"]
+                u = uri_mod.from_string(cap.encode())
+                self.mut[u.get_storage_index()] = e["o"]
+                self.content[u.get_readonly().to_string()] = "cap:" + e["o"]
             else:
-                self.must(self.req("PUT", url, content_bytes(e["c"])), "put " + e["p"])
-        # the caps of everything (bare-capability arguments; "cap:" contents)
-        tree = self.read_grid(raw=True)
-        self.caps = {"": self.rootcap}
-        initial = {e["p"]: e for e in self.world["G0"]}
-        for p, node in tree.items():
-            self.caps[p] = node["rw"] or node["ro"]
-            e = initial[p]
-            if e["k"] == "file":
-                self.content[node["ro"].encode()] = "cap:" + (e["o"] if e["mu"] else e["c"])
+                cap = self.must(self.req("PUT", url, content_bytes(e["c"])), "put " + e["p"])
+                self.content[cap.encode()] = "cap:" + e["c"]
+                self.immcap[cap] = e["c"]
+            self.caps[e["p"]] = cap
+            self.isdir[e["p"]] = e["k"] == "dir"
 
     # ------------------------------------------------------------------ observation
     def abstract_content(self, data):
@@ -159,9 +169,7 @@ class Case:
                 out.append({"p": abstract_path(parts + [fn]), "k": "file", "c": self.abstract_content(data), "mu": False, "o": ""})
         return out
 
-    def read_grid(self, raw=False):
-        """raw: {path: {"k", "rw", "ro"}} with real names mapped back; else the abstract entries"""
-        out = {}
+    def read_grid(self):
         entries = []
         seen = set()
 
@@ -176,19 +184,13 @@ class Case:
                 p = abstract_path(parts + [name])
                 rw, ro = cd.get("rw_uri"), cd.get("ro_uri")
                 if ckind == "dirnode":
-                    out[p] = {"k": "dir", "rw": rw, "ro": ro}
-                    entries.append({"p": p, "k": "dir", "c": "", "mu": False, "o": "", "imm": not cd.get("mutable", False)})
+                    entries.append({"p": p, "k": "dir", "c": "", "mu": False, "o": ""})
                     key = rw or ro
                     if key in seen:
                         raise RuntimeError("observe: directory %s reached twice" % p)
                     seen.add(key)
                     walk(key, parts + [name])
                 elif ckind == "filenode":
-                    out[p] = {"k": "file", "rw": rw, "ro": ro}
-                    if raw:
-                        continue
-                    g = self.req("GET", "/uri/%s" % quote(ro))
-                    data = g.body if g.code == 200 else b"<GET %d>" % g.code
                     mu = bool(cd.get("mutable", False))
                     o = ""
                     if mu:
@@ -197,11 +199,18 @@ class Case:
                             self.newmut += 1
                             self.mut[si] = "new:%d" % self.newmut
                         o = self.mut[si]
-                    entries.append({"p": p, "k": "file", "c": self.abstract_content(data), "mu": mu, "o": o})
+                    if not mu and ro in self.immcap:
+                        c = self.immcap[ro]
+                    else:
+                        g = self.req("GET", "/uri/%s" % quote(ro))
+                        c = self.abstract_content(g.body if g.code == 200 else b"<GET %d>" % g.code)
+                        if not mu and g.code == 200:
+                            self.immcap[ro] = c
+                    entries.append({"p": p, "k": "file", "c": c, "mu": mu, "o": o})
                 else:
                     entries.append({"p": p, "k": ckind, "c": "", "mu": False, "o": ""})
         walk(self.rootcap, [])
-        return out if raw else entries
+        return entries
 
     # ------------------------------------------------------------------ the command line
     def render(self, a, is_target):
@@ -219,11 +228,12 @@ class Case:
         elif form == "alias":
             s = "tahoe:" + "/".join(parts)
         elif form == "parentcap":
-            if parts:
-                parent = "/".join(a["p"].split("/")[:-1])
-                s = self.caps[parent] + "/" + parts[-1]
-            else:
-                s = self.rootcap
+            # DIRCAP/[SUBDIRS/]FILENAME from the nearest directory above that exists
+            ab = a["p"].split("/") if parts else []
+            k = max(len(ab) - 1, 0)
+            while k > 0 and not self.isdir.get("/".join(ab[:k])):
+                k -= 1
+            s = "/".join([self.caps["/".join(ab[:k])]] + parts[k:])
         else:  # dotcap: the older DIRCAP:./path spelling
             s = self.rootcap + ":./" + "/".join(parts)
         if a["slash"] and not s.endswith("/"):
